@@ -420,6 +420,36 @@ Proof.
     + intros q Hq. rewrite L1. apply I3. rewrite Cs1' in Hq. rewrite cnt_cons. lia.
 Qed.
 
+(** the state right after the count of [r] reached zero: its parent / xattrOf references are owed *)
+Lemma death_step r s d :
+  RefInvD s (r :: d) -> (fr_refs (gref s r) - 1 = 0)%Z ->
+  let s1 := set_ref B r (fr_with_refs (gref s r) 0) s in
+  RefInvD s1 (olist (fr_xattrOf (gref s r)) ++ olist (fr_parent (gref s r)) ++ d) /\
+  live_count s1 + 1 = live_count s /\ r < length (s_refs B s) /\ live (gref s r) = true.
+Proof.
+  intros (N & I2 & I3) Z0. cbv zeta.
+  assert (Hr : r < length (s_refs B s)). { apply I3. rewrite cnt_cons, ind_same. lia. }
+  set (x := gref s r) in *. set (s1 := set_ref B r (fr_with_refs x 0) s).
+  assert (Lx : live x = true). { unfold live. apply Z.ltb_lt. lia. }
+  pose proof (fun q => C_set_ref s r (fr_with_refs x 0) q Hr) as Cs1. fold x in Cs1. fold s1 in Cs1.
+  assert (Cs1' : forall q, C s1 q + (io (fr_parent x) q + io (fr_xattrOf x) q) = C s q).
+  { intros q. specialize (Cs1 q). rewrite out_refs_with_refs, cnt_out_refs, Lx in Cs1. cbn in Cs1. lia. }
+  assert (G1 : gref s1 r = fr_with_refs x 0) by (apply gref_set_same; auto).
+  assert (G2 : forall q, r <> q -> gref s1 q = gref s q) by (intros; apply gref_set_other; auto).
+  assert (L1 : length (s_refs B s1) = length (s_refs B s)) by apply len_set_ref.
+  pose proof (I2 r Hr) as Er. rewrite cnt_cons, ind_same in Er. fold x in Er.
+  split; [|split; [|split; auto]].
+  - split; [exact N|]. split.
+    + intros q Hq. rewrite L1 in Hq. rewrite !cnt_app, !cnt_olist. specialize (Cs1' q).
+      destruct (Nat.eq_dec r q) as [<-|Nq].
+      * rewrite G1. cbn. lia.
+      * rewrite G2 by auto. rewrite (I2 q Hq), cnt_cons, ind_diff by auto. lia.
+    + intros q Hq. rewrite L1. apply I3. rewrite !cnt_app, !cnt_olist in Hq. specialize (Cs1' q). rewrite cnt_cons. lia.
+  - unfold live_count. change (s_refs B s1) with (upd (s_refs B s) r (fr_with_refs x 0)).
+    pose proof (lc_upd (s_refs B s) r (fr_with_refs x 0) Hr) as E. fold (gref s r) in E. fold x in E.
+    rewrite Lx, live_refs in E. unfold b2n in E. cbn in E. lia.
+Qed.
+
 Lemma fuel_enough s : live_count s < fuel_of B s.
 Proof. unfold live_count, fuel_of. pose proof (lc_le (s_refs B s)). lia. Qed.
 
